@@ -119,7 +119,7 @@ Theorem C07_resolve_true_post_refuted :
   exists fs m0 st', Resolvable fs m0 /\
     resolve_imports (fuel_bound fs empty_state) true fs empty_state m0 = Ok (true, st') /\
     has_unresolved_imports no_fixes (scan_fuel fs st' m0) st' m0 = Ok true /\
-    has_unresolved_imports {| fx_pop := true; fx_nullref := false; fx_placeholder_children := false |} (scan_fuel fs st' m0) st' m0 = Ok false.
+    has_unresolved_imports {| fx_pop := true; fx_nullref := false; fx_placeholder_children := false; fx_cycle_guard := false |} (scan_fuel fs st' m0) st' m0 = Ok false.
 Proof. exact ImportProofs.resolve_true_post_refuted. Qed.
 Print Assumptions C07_resolve_true_post_refuted.
 
@@ -134,7 +134,7 @@ Theorem C07_unresolved_test_crash_refuted :
   exists m0 st', resolve_imports (fuel_bound [] empty_state) true [] empty_state m0 = Ok (true, st') /\
                  has_unresolved_imports no_fixes (scan_fuel [] st' m0) st' m0 = Crash /\
                  flatten_precheck no_fixes (scan_fuel [] st' m0) st' m0 = Crash /\
-                 has_unresolved_imports {| fx_pop := false; fx_nullref := true; fx_placeholder_children := false |} (scan_fuel [] st' m0) st' m0 = Ok false.
+                 has_unresolved_imports {| fx_pop := false; fx_nullref := true; fx_placeholder_children := false; fx_cycle_guard := false |} (scan_fuel [] st' m0) st' m0 = Ok false.
 Proof. exact ImportProofs.unresolved_test_crash_refuted. Qed.
 Print Assumptions C07_unresolved_test_crash_refuted.
 
@@ -158,6 +158,9 @@ Theorem C07_resolve_true_post_partial : forall fs strict m0 fx (rank urank : str
      fs_model fs (key_of o url) = Some sm -> In url' (import_urls sm) -> urank url' < urank url) ->
   OriginShallow m0 ->
   forall fuel st st', cons fs st -> resolve_imports fuel strict fs st m0 = Ok (true, st') ->
+  (* 85ba0d4: hasUnitsCycle finds no units cycle in the resolved model and the files (stated, not derived from the
+     ranks; it holds trivially for the code before that commit, where the guard does not exist) *)
+  GuardSilent fs fx st' m0 ->
   exists N, forall fuel', N <= fuel' -> has_unresolved_imports fx fuel' st' m0 = Ok false.
 Proof. exact ImportPost.resolve_true_post_partial. Qed.
 Print Assumptions C07_resolve_true_post_partial.
@@ -172,7 +175,8 @@ Example C07_resolve_true_post_nonvacuous :
     (forall o cm url sm url', octx ex_fs ex_m0 o cm -> In url (import_urls cm) ->
        fs_model ex_fs (key_of o url) = Some sm -> In url' (import_urls sm) -> urank url' < urank url) /\
     OriginShallow ex_m0 /\ cons ex_fs empty_state /\
-    resolve_imports (fuel_bound ex_fs empty_state) true ex_fs empty_state ex_m0 = Ok (true, st').
+    resolve_imports (fuel_bound ex_fs empty_state) true ex_fs empty_state ex_m0 = Ok (true, st') /\
+    fx_cycle_guard fx = true /\ GuardSilent ex_fs fx st' ex_m0.
 Proof. exact ImportPost.post_nonvacuous. Qed.
 Print Assumptions C07_resolve_true_post_nonvacuous.
 
@@ -186,13 +190,30 @@ Proof. exact ImportProofs.resolve_true_links. Qed.
 Print Assumptions C07_resolve_true_links_partial.
 
 (** 6. K3: cyclic LOCAL units inside an imported file: resolveImports = true without an issue, and the
-    pre-flatten scan of flattenModel never returns — out of fuel for EVERY fuel (stack exhaustion). *)
+    pre-flatten scan of flattenModel (ImporterImpl::checkUnitsForCycles, which 85ba0d4 does not guard) never returns —
+    out of fuel for EVERY fuel (stack exhaustion) and for EVERY variant of the code, HEAD included.  What 85ba0d4
+    changes: hasUnresolvedImports() was out of fuel too and now answers true (cyclic units count as unresolved). *)
 Theorem C07_flatten_precheck_cyclic_units_refuted :
   exists fs m0 st', resolve_imports (fuel_bound fs empty_state) true fs empty_state m0 = Ok (true, st') /\
                     issues_rev st' = [] /\
-                    forall fuel, flatten_precheck no_fixes fuel st' m0 = OutOfFuel.
+                    (forall fx fuel, flatten_precheck fx fuel st' m0 = OutOfFuel) /\
+                    has_unresolved_imports no_fixes (scan_fuel fs st' m0) st' m0 = OutOfFuel /\
+                    has_unresolved_imports head_fixes (scan_fuel fs st' m0) st' m0 = Ok true.
 Proof. exact ImportProofs.flatten_precheck_cyclic_units_refuted. Qed.
 Print Assumptions C07_flatten_precheck_cyclic_units_refuted.
+
+(** 85ba0d4 (hasUnitsCycle guard, fx_cycle_guard) on cyclic local units of the model itself (no import at all): before,
+    hasUnresolvedImports and flattenModel's pre-checks do not return; with the guard hasUnresolvedImports() = true
+    and flattenModel returns null with the issue IMPORTER_UNRESOLVED_IMPORTS attached to the model. *)
+Theorem C07_cycle_guard_witness :
+  exists m0 st', resolve_imports (fuel_bound [] empty_state) true [] empty_state m0 = Ok (true, st') /\
+    has_unresolved_imports (no_fixes) (scan_fuel [] st' m0) st' m0 = OutOfFuel /\
+    flatten_precheck no_fixes (scan_fuel [] st' m0) st' m0 = OutOfFuel /\
+    has_unresolved_imports head_fixes (scan_fuel [] st' m0) st' m0 = Ok true /\
+    exists st'', flatten_precheck head_fixes (scan_fuel [] st' m0) st' m0 = Ok (false, st'') /\
+                 issues_rev st'' = [{| i_rule := R_UNRESOLVED_IMPORTS; i_item := ItModel |}].
+Proof. exact ImportProofs.cycle_guard_witness. Qed.
+Print Assumptions C07_cycle_guard_witness.
 
 (** … and on models in which no units and no component depends on itself the pre-checks of flattenModel
     (checkUnitsForCycles, checkComponentForCycles, hasUnresolvedImports, isDefined) always return — with a value, or
